@@ -316,7 +316,7 @@ fn structure_edits__frame_and_errors() {
     println!("VERIF-COUNT structure_edits__frame_and_errors {n}");
 }
 
-// @obl props=C01,C02,C03,C13 tier=quick fn=abe_policy::Dimension::restrict shape="hierarchies of 1..4 attributes built in every insertion order (after = any existing / None), then every single deletion; order, name lookup and restriction at every rank"
+// @obl props=C01,C02,C03,C09,C13 tier=quick fn=abe_policy::Dimension::restrict shape="hierarchies of 1..4 attributes built in every insertion order (after = any existing / None), then every single deletion and every duplicate add (any insertion point); order, name lookup and restriction at every rank"
 #[test]
 fn hierarchy__order_and_restriction() {
     // build hierarchies by inserting "n{k}" after a chosen existing attribute, track the expected order in a Vec
@@ -369,6 +369,16 @@ fn hierarchy__order_and_restriction() {
                     }
                     _ => panic!("C01: restriction of a hierarchy is a hierarchy"),
                 }
+                n += 1;
+            }
+        }
+        // duplicate names are refused whatever the insertion point, and the structure is left as it was
+        for dup in order.iter() {
+            for after in std::iter::once(None).chain(order.iter().map(Some)) {
+                let mut s2 = s.clone();
+                let r = s2.add_attribute(QualifiedAttribute::new("H", dup), EncryptionHint::Hybridized, after.map(|x| x.as_str()));
+                assert!(matches!(r, Err(Error::OperationNotPermitted(_))), "C03/C09: adding the existing name {dup} to hierarchy {order:?} after {after:?} returned {r:?}, expected the duplicate-name error");
+                assert!(s2 == s, "C03/C09: a refused duplicate add of {dup} after {after:?} changed hierarchy {order:?}");
                 n += 1;
             }
         }
